@@ -20,11 +20,96 @@ def unhx(h: str) -> str:
     return bytes.fromhex(h).decode("ascii")
 
 
+OTHERS = ["float", "npint", "dict", "set", "mixed", "nested", "strseq", "floatseq", "npseq", "rawperiod", "object", "frozenset", "gen"]
+
+
+def _pyval(tok: str):
+    """the argument of periods.instant / periods.period as the line writes it"""
+    import datetime
+    import numpy
+    import pendulum
+    from openfisca_core.periods import DateUnit, Instant
+    if tok == "N":
+        return None
+    k, _, v = tok.partition(":")
+    ints = lambda t: [int(x) for x in t.split(",")] if t else []
+    if k == "I":
+        return int(v)
+    if k == "S":
+        return unhx(v)
+    if k == "E":
+        return DateUnit(v)
+    if k == "T":
+        return Instant(parse_date(v))
+    if k == "P":
+        return parse_period_token(v)
+    if k == "D":
+        return datetime.date(*parse_date(v))
+    if k == "DP":
+        return pendulum.date(*parse_date(v))
+    if k == "DT":
+        return datetime.datetime(*parse_date(v), 13, 37)
+    if k == "L":
+        return ints(v)
+    if k == "U":
+        return tuple(ints(v))
+    if k == "B":
+        return bytes.fromhex(v)
+    if k == "R":
+        return range(int(v))
+    if k == "F":
+        return float(v)
+    if k == "O":
+        return {"float": 2021.0, "npint": numpy.int64(2021), "dict": {2021: 1}, "set": {2021}, "mixed": (2021, "9"),
+                "nested": ((2021, 1, 1),), "strseq": ("2021",), "floatseq": [2021.0, 1.0], "npseq": (numpy.int64(2021), numpy.int64(3)),
+                "rawperiod": (DateUnit.YEAR, Instant((2021, 1, 1)), 1), "object": object(), "frozenset": frozenset({2021}),
+                "gen": (x for x in (2021, 1))}[v]
+    raise ValueError(tok)
+
+
+def _elems(t) -> str:
+    return ",".join(str(int(x)) for x in t)
+
+
 def impl(case: Case) -> str:
     from openfisca_core import periods
     from openfisca_core.periods import Instant
     f = case.line.split()
     op = f[1]
+    if op in ("mkinstant", "mkperiod", "idate"):
+        v = _pyval(f[2])
+        if op == "idate":
+            # instant_date keeps a cache shared with Instant.date: asked on a date it has not seen, then again
+            try:
+                if v is not None:
+                    periods.config.date_by_instant_cache.pop(v, None)
+            except Exception:
+                pass
+            outs = []
+            for _ in range(2):
+                try:
+                    d = periods.instant_date(v)
+                    outs.append("none" if d is None else fmt_date((d.year, d.month, d.day)))
+                except Exception:
+                    outs.append("ERR")
+            return outs[0] if outs[0] == outs[1] else f"{outs[0]}#AGAIN:{outs[1]}"
+        try:
+            if op == "mkinstant":
+                r = periods.instant(v)
+                return _elems(r) if type(r) is Instant else f"NOT-INSTANT:{type(r).__name__}"
+            r = periods.period(v)
+            if type(r) is not periods.Period or type(r.start) is not Instant:
+                return f"NOT-PERIOD:{type(r).__name__}"
+            return f"{str(r.unit)}/{_elems(r.start)}/{r.size}"
+        except Exception:
+            return "ERR"
+    if op in ("punit", "pperiod"):
+        from openfisca_core.periods import _parsers
+        s = unhx(f[2]) if len(f) > 2 else ""
+        try:
+            return str(_parsers.parse_unit(s)) if op == "punit" else fmt_period(_parsers.parse_period(s))
+        except Exception:
+            return "ERR"
     if op == "parse":
         s = unhx(f[2]) if len(f) > 2 else ""
         try:
@@ -45,7 +130,7 @@ def impl(case: Case) -> str:
         except Exception:
             return f"{hx(t)}|ERR"
         return f"{hx(t)}|{fmt_period(q)}|{hx(str(q))}"
-    if op == "disk":
+    if op in ("disk", "diske"):
         # the text form as a storage file name: OnDiskStorage.put writes <str(period)>.npy, a second
         # store on the same directory restores its keys by parsing the file names back
         import os
@@ -56,14 +141,17 @@ def impl(case: Case) -> str:
         p = parse_period_token(f[2])
         d = tempfile.mkdtemp(prefix="ofv_c05_")
         try:
-            a = OnDiskStorage(d, preserve_storage_dir=True)
+            eternal = op == "diske"
+            a = OnDiskStorage(d, is_eternal=eternal, preserve_storage_dir=True)
             val = numpy.asarray([1.5, 2.5])
             a.put(val, p)
             names = sorted(os.listdir(d))
             if len(names) != 1 or not names[0].endswith(".npy"):
                 return f"FILES:{names}"
             t = names[0][:-4]
-            b = OnDiskStorage(d, preserve_storage_dir=True)
+            with open(os.path.join(d, "NOTES.txt"), "w") as fh:      # restore only looks at the .npy files
+                fh.write("not a stored value")
+            b = OnDiskStorage(d, is_eternal=eternal, preserve_storage_dir=True)
             try:
                 b.restore()
             except Exception:
@@ -134,6 +222,14 @@ def oracle(case: Case, out: str):
             return ("roundtrip-unit", f"{text!r} parses to unit {u2}")
         if parts[2] != parts[0]:
             return ("roundtrip-reprint", f"{text!r} reprints as {unhx(parts[2])!r}")
+    elif op == "diske":
+        parts = out.split("|")
+        if out.startswith("FILES:") or len(parts) < 3 or parts[1] == "ERR" or parts[1].startswith(("KEYS:", "VALUE-LOST")):
+            return ("disk-store-lost", f"storing a value for {f[2]} in an eternal store on disk and restoring the directory: {out}")
+    elif op == "idate":
+        if "#AGAIN:" in out:
+            a, b = out.split("#AGAIN:")
+            return ("instant-date-repeat", f"instant_date({f[2]}) answered {a}, then {b}")
     elif op == "pair" and case.claimed:
         a, b = out.split("|")
         if f[2] != f[3] and a == b:
@@ -239,6 +335,41 @@ def mutate(rng, s):
     return s[:i] + c + s[i:]
 
 
+def constructor_cases(rng, u, s, n):
+    """periods.instant / periods.period / instant_date on every argument type they accept (and some they refuse)"""
+    y, m, d = s
+    ptok = _tok(u, s, n)
+    iso = dt.date(y, m, d).isocalendar()
+    texts = [f"{y:04d}", f"{y:04d}-{m:02d}", f"{y:04d}-{m:02d}-{d:02d}", f"{iso[0]:04d}-W{iso[1]:02d}", f"{iso[0]:04d}-W{iso[1]:02d}-{iso[2]}",
+             f"{u}:{y:04d}-{m:02d}-{d:02d}:{n}", str(y), f" {y}", "eternity", "ETERNITY", "year", ""]
+    vals = ["N", f"I:{y}", f"I:{rng.choice([0, -1, 1, 999, 10000, 99999, y + 1])}", f"T:{y},{m},{d}", f"P:{ptok}", "P:eternity/-1,-1,-1/-1",
+            f"D:{y},{m},{d}", f"DP:{y},{m},{d}", f"DT:{y},{m},{d}",
+            f"L:{y}", f"L:{y},{m}", f"L:{y},{m},{d}", f"L:{y},{m},{d},{n}", f"U:{y}", f"U:{y},{m}", f"U:{y},{m},{d}", f"U:{y},{m},{d},7,9",
+            "L:", "U:", f"L:{rng.randint(-5, 12000)},{rng.randint(-2, 14)}", f"U:{y},{rng.randint(0, 13)},{rng.randint(0, 32)}",
+            f"T:{y},{rng.randint(0, 13)},{rng.randint(0, 32)}", "T:-1,-1,-1", f"B:{hx(str(y))}", "B:", f"R:{rng.randint(0, 5)}",
+            "O:" + rng.choice(OTHERS), "O:" + rng.choice(OTHERS), "E:" + rng.choice(DATED + ["eternity"])]
+    vals += ["S:" + hx(t) for t in rng.sample(texts, 5)]
+    # the same date handed over as every type in turn, forwards and backwards, within one process: a result remembered
+    # under a key that forgets the TYPE of the argument (2021 / "2021" / (2021,) / Instant / date / datetime, a tuple that
+    # equals an Instant, the same text in another case) would answer for the wrong one
+    same = [f"I:{y}", f"F:{y}.0", "S:" + hx(f"{y:04d}"), f"U:{y}", f"L:{y}", f"T:{y},1,1", f"U:{y},1,1", f"D:{y},1,1", f"DT:{y},1,1", f"DP:{y},1,1",
+            f"P:year/{y},1,1/1", f"P:day/{y},1,1/1", f"P:year/{y},1,1/2", "S:" + hx(f"{y:04d}-01"), "S:" + hx(f"{y:04d}-01-01"),
+            "S:" + hx(f"year:{y:04d}"), "S:" + hx(f"day:{y:04d}-01-01"), "S:" + hx(f"year:{y:04d}:2"), "S:" + hx("eternity"), "E:eternity",
+            "S:" + hx("ETERNITY"), "P:eternity/-1,-1,-1/-1", "T:-1,-1,-1", "U:-1,-1,-1", "N"]
+    vals += same + same[::-1]
+    out = []
+    for v in vals:
+        out.append(Case(line=f"txt mkinstant {v}", tags=("mkinstant", v.split(":")[0])))
+        out.append(Case(line=f"txt mkperiod {v}", tags=("mkperiod", v.split(":")[0])))
+    for v in same + same[::-1]:       # and each constructor alone over the whole sequence
+        out.append(Case(line=f"txt mkperiod {v}", tags=("mkperiod", "seq")))
+    for v in same[::-1] + same:
+        out.append(Case(line=f"txt mkinstant {v}", tags=("mkinstant", "seq")))
+    for v in ("N", f"T:{y},{m},{d}", f"T:{y},{rng.randint(0, 13)},{rng.randint(27, 32)}", "T:-1,-1,-1", f"T:{rng.choice([0, 10000, y])},1,1"):
+        out.append(Case(line=f"txt idate {v}", tags=("idate",)))
+    return out
+
+
 def _parse_case(s, tags=(), claimed=True):
     return Case(line=("txt parse " + hx(s)).strip(), claimed=claimed, tags=("parse",) + tuple(tags))
 
@@ -255,8 +386,8 @@ def _size_claimed(s):
 
 def generate(rng: random.Random, tier: str):
     out = []
-    n_per = 5000 if tier == "quick" else 60000
-    n_str = 500 if tier == "quick" else 15000
+    n_per = 12000 if tier == "quick" else 60000
+    n_str = 1200 if tier == "quick" else 15000
     for _ in range(n_per):
         u, s, n = _aligned_period(rng)
         p = _tok(u, s, n)
@@ -264,6 +395,10 @@ def generate(rng: random.Random, tier: str):
         if rng.random() < 0.4:
             out.append(Case(line=f"txt disk {p}", tags=("disk", u)))
         out.append(Case(line=f"txt irt {fmt_date(s)}", tags=("irt",)))
+        if rng.random() < 0.04:
+            out.append(Case(line=f"txt diske {p}", tags=("diske", u)))
+        if rng.random() < 0.07:
+            out += constructor_cases(rng, u, s, n)
         if rng.random() < 0.5:
             out.append(Case(line=f"txt ispell {fmt_date(s)}", tags=("ispell",)))
         # a neighbour of the same unit that differs in start or size
@@ -309,6 +444,11 @@ def generate(rng: random.Random, tier: str):
         for v in rng.sample(vs, 4):
             out.append(Case(line="txt instant " + hx(v), tags=("instant",)))
             out.append(Case(line="txt instant " + hx(mutate(rng, v)), tags=("instant-mutation",)))
+        # _parsers.parse_unit / parse_period called directly (not only behind helpers.period's own tests)
+        for v in rng.sample(vs, 6):
+            for w in (v, mutate(rng, v)):
+                out.append(Case(line=("txt punit " + hx(w)).strip(), tags=("punit",)))
+                out.append(Case(line=("txt pperiod " + hx(w)).strip(), tags=("pperiod",)))
     out.append(_parse_case("", ("empty",)))
     return out
 
@@ -345,6 +485,13 @@ def corpus():
     # binding for the correspondence, the oracle is silent)
     out.append(Case(line="txt rt eternity/-1,-1,-1/-1", tags=("rt", "corpus", "eternity")))
     out.append(Case(line="txt disk eternity/-1,-1,-1/-1", tags=("disk", "corpus", "eternity")))
+    out.append(Case(line="txt diske month/2015,1,1/1", tags=("diske", "corpus")))
+    out.append(Case(line="txt diske eternity/-1,-1,-1/-1", tags=("diske", "corpus")))
+    out += constructor_cases(random.Random(5), "month", (2015, 1, 1), 3)
+    out += constructor_cases(random.Random(6), "week", (2020, 12, 28), 1)
+    for t in ["2015-3", "2015", "2015-W53", "2015-W53-7", "2015-02-30", "abc", "2015-1", "2015-W01-8", "month:2015-01"]:
+        out.append(Case(line="txt punit " + hx(t), tags=("punit", "corpus")))
+        out.append(Case(line="txt pperiod " + hx(t), tags=("pperiod", "corpus")))
     return out
 
 
@@ -359,9 +506,16 @@ PROP = Prop(
           "period, on strings built to fall in each rejection class of the statement (impossible date, finer unit, non-integer size, unknown "
           "unit, extra fields), on single-edit mutations over the alphabet 0-9 - : W . + _ space a-z, and on short tails over {0,1,9,-,:,W} "
           "appended to valid prefixes; (iii) `txt disk`: the text form as a storage file name -- OnDiskStorage.put writes <str(period)>.npy in a "
-          "real directory, a second store restores its keys by parsing the file names back. Non-trivial = accepted by the parser or built for a rejection class; distinct = distinct lines."),
+          "real directory (beside a file that is not a stored value), a second store restores its keys by parsing the file names back; `txt diske`: the same with stores "
+          "created with is_eternal=True (everything is filed under ETERNITY); (iv) `txt mkinstant / mkperiod <value>`: periods.instant and periods.period on every "
+          "argument type -- None, int, str, DateUnit member, Instant, Period, datetime.date, pendulum.Date, datetime.datetime, lists and tuples of 0..5 ints "
+          "(padding with ones, cut after the third), bytes, range, and things that are refused (float, numpy integer, dict, set, sequences holding a str / a float / "
+          "a numpy integer, a raw (unit, instant, size) tuple, a generator); `txt idate`: instant_date on None, real and impossible instants, asked twice from "
+          "an empty cache; `txt punit / pperiod`: _parsers.parse_unit / parse_period called directly on valid spellings and their mutations. Non-trivial = accepted by the parser or built for a rejection class; distinct = distinct lines."),
     assumptions=[
         "pendulum.parse(exact=True) calendar validity, Python re on the two ISO expressions and int() literal syntax are modelled on the ASCII alphabet (PeriodText.lean), tied by this correspondence",
+        "periods.instant / periods.period / instant_date on non-text arguments, key spellings of the constructors and the direct parser calls carry no statement of their own: "
+        "the oracle is silent, the correspondence with instantOf / periodOf / instantDate / parseUnit / parseIsoPeriod (PeriodText.lean, Period.lean) is binding; bool arguments are not generated",
         "claim domain: aligned periods of size >= 1, years 1000..9999, rejection classes of the statement; sizes <= 0, int() oddities (+3, 1_0, blanks), unaligned printing are compared but not binding",
     ],
     exhaustive_note="thorough: all tails of length <= 4 over {0,1,9,-,:,W} after 10 valid prefixes",
